@@ -788,9 +788,68 @@ def s4_list_int(ctx):
         loc[T('index', bounds, k)] = Lin.atom(('bk',))
         if not equal(NF(loc)(off), eff - Lin.atom(('bk',))):
             ip_probs.setdefault('the offset inside the part is %s, expected x - bounds[part] with x = %s' % (NF(loc)(off), eff), 1)
+    # an integer in [-n, n) is a valid index: a path that RAISES must be infeasible for every such integer. The path facts (comparisons of terms over x and
+    # n = bounds[-1]) are evaluated on a small grid of valid (x, n); a fact that cannot be evaluated leaves the path undecided.
+    ip_und = {}
+    _bnd = [[0, 1], None]
+
+    def _val(t_, x_, n_):
+        if is_c(t_):
+            return t_[1]
+        if t_ == X:
+            return x_
+        if t_ == T('index', bounds, C(-1)):
+            return n_
+        if is_t(t_) and t_[1] == 'call' and t_[2] in ('abs', 'int', 'np.abs') and len(t_) == 5:
+            v_ = _val(t_[4], x_, n_)
+            return abs(v_) if t_[2] != 'int' else int(v_)
+        if is_t(t_) and t_[1] == 'call' and t_[2] == 'len' and len(t_) == 5 and t_[4] == bounds:
+            return len(_bnd[0])
+        if is_t(t_) and t_[1] == 'index' and t_[3] == C(0) and is_t(t_[2]) and t_[2][1] == 'call' and t_[2][2] == '_find_chunks' and len(t_[2]) == 6 and t_[2][4] == bounds:
+            # the part-location rule (decided by C01.S2): number of bounds <= x, minus one
+            arr_ = I.deref(t_[2][5], _bnd[1])
+            if is_t(arr_) and arr_[1] == 'list' and len(arr_) == 3:
+                xv_ = _val(arr_[2], x_, n_)
+                return sum(1 for b_ in _bnd[0] if b_ <= xv_) - 1
+            raise KeyError('_find_chunks argument')
+        if is_t(t_) and t_[1] in ('Add', 'Sub', 'Mult', 'Mod') and len(t_) == 4:
+            a_, b_ = _val(t_[2], x_, n_), _val(t_[3], x_, n_)
+            return {'Add': lambda: a_ + b_, 'Sub': lambda: a_ - b_, 'Mult': lambda: a_ * b_, 'Mod': lambda: a_ % b_}[t_[1]]()
+        if is_t(t_) and t_[1] == 'USub' and len(t_) == 3:
+            return -_val(t_[2], x_, n_)
+        raise KeyError(show(t_)[:40])
+    for kind, val, st in outs:
+        if kind != 'raise':
+            continue
+        relevant = [(k_, v_) for k_, v_ in st.facts.items() if k_ not in facts]
+        witness, blocked = None, None
+        for n_, x_, bl_ in [(n0_, x0_, bl0_) for n0_ in (1, 2, 5) for bl0_ in ([0, n0_], [0, 1, n0_]) if bl0_[-2] < n0_ for x0_ in range(-n0_, n0_)]:
+            if True:
+                _bnd[0], _bnd[1] = bl_, st
+                try:
+                    sat = True
+                    for k_, v_ in relevant:
+                        if k_[0] == 'rel':
+                            a_, b_ = _val(k_[1], x_, n_), _val(k_[2], x_, n_)
+                            sat = sat and {'<': a_ < b_, '=': a_ == b_, '>': a_ > b_}[v_]
+                        elif k_[0] == 'truth':
+                            sat = sat and (bool(_val(k_[1], x_, n_)) == v_)
+                        else:
+                            raise KeyError(str(k_[0]))
+                    if sat and witness is None:
+                        witness = (x_, n_)
+                except (KeyError, TypeError, ZeroDivisionError) as e_:
+                    blocked = str(e_)
+        if blocked is not None:
+            ip_und.setdefault('a path of the integer branch raises %s under facts that are not evaluated (%s)' % (show(val)[:40], blocked), 1)
+        elif witness is not None:
+            ip_probs.setdefault('the valid index x = %d of a reader of n = %d samples (x in [-n, n)) raises %s' % (witness[0], witness[1], show(val)[:50]), 1)
     if ip_probs:
         for msg in list(ip_probs)[:3]:
             ctx.violated('C01.S4', fi, msg[:160], 'integer branch of _get_subitems: ' + msg)
+    elif ip_und:
+        for msg in list(ip_und)[:2]:
+            ctx.undecided('C01.S4', fi, 'integer branch of _get_subitems: ' + msg)
     elif n:
         ctx.holds('C01.S4', fi, 'integer: (part(x), x - bounds[part]) with negative x normalised by + n (%d paths)' % n, '_get_subitems[int]')
     else:
